@@ -346,8 +346,11 @@ def run(ctx):
     if ctx.shard == 0:
         front_end_twins(res, ctx, names)
     if ctx.shard == 0:
-        res.sample({'name': 'BSC_read_nocancel', 'rendering': render('BSC_read_nocancel', (3, 0x1000, 64, 0), (0, 64, 0, 0)),
-                    'base': render('BSC_read', (3, 0x1000, 64, 0), (0, 64, 0, 0))})
+        try:
+            res.sample({'name': 'BSC_read_nocancel', 'rendering': render('BSC_read_nocancel', (3, 0x1000, 64, 0), (0, 64, 0, 0)),
+                        'base': render('BSC_read', (3, 0x1000, 64, 0), (0, 64, 0, 0))})
+        except Exception as x:
+            res.violation(f'c17-raises-{core.exc_name(x)}', f'BSC_read_nocancel / BSC_read: {x!r}', {'name': 'BSC_read_nocancel'})
         res.sample({'registered_names': len(names), 'first': names[:5]})
     res.assumptions += ['the bundled table is read with the own parser of vlib/ev.py', 'twin words are in-domain']
     res.require('functions_observed_entered', 10)
